@@ -46,8 +46,10 @@ def facts(ctx):
     pad_codes = set(status_literals(pad_body))
     if len(pad_codes) != 1:
         raise TieBroken(f"srcfacts: check_padding logs {pad_codes}")
-    if not re.search(r"pad1\.iter\(\)\.all\(\|b\|\s*\*b\s*==\s*0\)", pad_body) or "return Ok(())" not in pad_body:
-        raise TieBroken("srcfacts: check_padding no longer has the shape modelled (pad1 all-zero test, early Ok)")
+    ties = []          # shape changes that do not prevent the facts from being written: reported at the end, the run goes on
+    if not re.search(r"pad1\.iter\(\)\.all\(\|b\|\s*\*b\s*==\s*0\)", pad_body) or \
+            not re.search(r"pad2\.iter\(\)\.all\(\|b\|\s*\*b\s*==\s*0\)", pad_body) or "return Ok(())" not in pad_body:
+        ties.append("srcfacts: check_padding no longer has the shape modelled (pad1 / pad2 all-zero test over every byte, early Ok)")
     vp = common.fn_body(a, r"pub\(crate\)\s+fn\s+validate_partial_claim\s*\(", "validate_partial_claim")
     order = [vp.find("self.check_padding("), vp.find(".check_against_partial_claim("), vp.find("let sig_type")]
     if -1 in order or order != sorted(order):
@@ -103,7 +105,7 @@ def facts(ctx):
     marker = common.fact(r'a\.url\(\)\.contains\("([^"]+)"\)', content, "hard binding marker of content()").group(1)
     fin = common.fn_body(bld, r"fn\s+finalize_identity_assertion\s*\(", "finalize_identity_assertion")
     if "pad1: vec![]" not in fin or not re.search(r"vec!\[\s*0u8;", fin):
-        raise TieBroken("srcfacts: finalize_identity_assertion no longer zero-fills the padding")
+        ties.append("srcfacts: finalize_identity_assertion no longer zero-fills the padding")
 
     rm = common.strip_tests(common.src(IDENT + "x509/x509_status_remap.rs"))
     rbody = common.fn_body(rm, r"fn\s+remap_x509_cose_status_codes\s*\(", "remap_x509_cose_status_codes")
@@ -183,8 +185,12 @@ def facts(ctx):
     # the C04 facts (tolerated lists used by Proofs/ValStateProofs.v) are regenerated as well
     from . import c04
     keep = ctx.facts
-    c04.facts(ctx)
-    ctx.facts = keep
+    try:
+        c04.facts(ctx)
+    finally:
+        ctx.facts = keep
+    if ties:
+        raise TieBroken("; ".join(ties))
 
 
 # ---------------------------------------------------------------------------------------------------------------
@@ -296,6 +302,34 @@ def vout_for(sig, trust, alg):
 # ---------------------------------------------------------------------------------------------------------------
 # unit level
 
+LONG = [4095, 4096, 4097, 5000, 8200]
+
+
+def long_pad(rng, n, where):
+    """n zero bytes with one non-zero byte at first | mid | last | p4095 | p4096 | late (>= 4096), or all zero"""
+    b = bytearray(n)
+    pos = {"first": 0, "mid": n // 2, "last": n - 1, "p4095": 4095, "p4096": 4096, "late": 4096 + rng.randrange(max(1, n - 4096)), "zero": None}[where]
+    if pos is not None and pos < n:
+        b[pos] = rng.choice([1, 0x80, 0xff])
+    return b.hex()
+
+
+def long_pads(rng):
+    where = rng.choice(["first", "mid", "last", "p4095", "p4096", "late", "late", "zero"])
+    n = rng.choice(LONG)
+    if rng.random() < 0.5:
+        return long_pad(rng, n, where), rng.choice([None, "00" * 5])
+    return rng.choice(["", "00" * 3, "00" * n]), long_pad(rng, n, where)
+
+
+def gen_unit_long(rng, i, which, n, where):
+    """deterministic family: everything in order except one byte of one long padding field"""
+    c = {"id": i, "op": "unit", "claim": [[REL + "c2pa.hash.data", "aa"]], "refs": [[REL + "c2pa.hash.data", "aa"]], "sig_type": X509, "roles": [],
+         "pad1": "00" * 3, "pad2": None, "sig": "valid", "cawg_alg": "ed25519", "stop": rng.random() < 0.5, "trust": {"verify": False, "anchors": "none"}}
+    c["pad" + str(which)] = long_pad(rng, n, where)
+    return c
+
+
 def gen_unit(rng, i):
     n = rng.choice([1, 2, 2, 3, 4, 5])
     labels = rng.sample(LABELS, n)
@@ -331,6 +365,8 @@ def gen_unit(rng, i):
     z = lambda k: "00" * k
     pad1 = rng.choice([z(0), z(0), z(3), z(40), z(3), "000100", "ff", z(20) + "80"])
     pad2 = rng.choice([None, None, z(0), z(2), z(9), "0001", "01" + z(7)])
+    if rng.random() < 0.07:
+        pad1, pad2 = long_pads(rng)
     sig = rng.choice(["valid", "valid", "valid", "other", "garbage", "empty", "nocert"])
     trust = rng.choice([{"verify": False, "anchors": "none"}, {"verify": True, "anchors": "c2pa"}, {"verify": True, "anchors": "none"},
                         {"verify": True, "anchors": "partial"}, {"verify": True, "anchors": "c2pa", "user": True}])
@@ -429,7 +465,27 @@ PRE_KINDS = ["flip:pad1", "flip:pad2", "flip:sigval", "flip:sig_protected", "fli
              "flip:role", "dup_ref", "drop_hard", "add_missing", "alter_hash", "sig_type", "pad1", "pad2"]
 
 
-def gen_e2e(rng, i, force=None):
+def gen_e2e_long(rng, c):
+    """the SDK reserves (and zero-fills) several KiB of padding; one byte of pad1 / pad2 is then changed, before the claim
+    is hashed or in the finished asset, at the first / middle / last / 4096th / a later position"""
+    c["fmt"], c["asset"] = "image/jpeg", rng.choice(["C.jpg", "no_manifest.jpg"])
+    c["reserve_extra"] = rng.choice([3700, 4200, 6000, 9000])
+    at = rng.choice(["first", "mid", "last", "p4095", "p4096", "late", "late", "late", None])
+    which = rng.choice([1, 1, 2])
+    if at is None:
+        if which == 2:
+            c["pre"] = {"k": "pad", "which": 2, "long_pad2": True, "zero": True}
+        return c
+    if which == 2:
+        c["pre"] = {"k": "pad", "which": 2, "long_pad2": True, "at": at, "off": rng.randrange(0, 4096)}
+    elif rng.random() < 0.6:
+        c["pre"] = {"k": "pad", "which": 1, "at": at, "off": rng.randrange(0, 4096)}
+    else:
+        c[rng.choice(["pre", "post"])] = {"k": "flip", "field": "pad1", "at": at, "off": rng.randrange(0, 4096), "xor": rng.choice([1, 0x80])}
+    return c
+
+
+def gen_e2e(rng, i, force=None, longpad=None):
     k = rng.randrange(0, len(EXTRA) + 1)
     extra = rng.sample(EXTRA, k)
     refs = [e["label"] for e in extra if rng.random() < 0.7]
@@ -442,6 +498,8 @@ def gen_e2e(rng, i, force=None):
     if rng.random() < 0.12:
         c["fmt"], c["asset"] = "image/png", "libpng-test.png"
     c["post_validate"] = not c["decode"]
+    if longpad or (longpad is None and rng.random() < 0.12):
+        return gen_e2e_long(rng, c)
     kind = force if force is not None else (None if rng.random() < 0.2 else rng.choice(PRE_KINDS + ["ref_data"]))
     level = "pre" if (kind in ("dup_ref", "drop_hard", "add_missing", "alter_hash", "sig_type", "pad1", "pad2") or rng.random() < 0.65) else "post"
     if kind is None:
@@ -601,7 +659,10 @@ def run(ctx):
         cases = corpus()
         nu, ne = (300, 90) if ctx.quick() else (3000, 700)
         cases += [gen_unit(ctx.rng, 0) for _ in range(nu)]
-        cases += [gen_e2e(ctx.rng, 0, force=k) for k in PRE_KINDS + ["ref_data", None, None]]
+        wheres = ["first", "mid", "last", "p4095", "p4096", "late", "zero"]
+        cases += [gen_unit_long(ctx.rng, 0, w, n, wh) for w in (1, 2) for n in ((4097, 8200) if ctx.quick() else LONG) for wh in wheres]
+        cases += [gen_e2e(ctx.rng, 0, force=k, longpad=False) for k in PRE_KINDS + ["ref_data", None, None]]
+        cases += [gen_e2e(ctx.rng, 0, longpad=True) for _ in range(10 if ctx.quick() else 60)]
         cases += [gen_e2e(ctx.rng, 0) for _ in range(ne)]
     for i, c in enumerate(cases):
         c["id"] = i
@@ -617,12 +678,16 @@ def run(ctx):
         "distribution": {"unit": su, "e2e": se},
         "traces_validated_against_impl": len(cases),
         "samples": [{k: (v if len(json.dumps(v)) < 160 else "...") for k, v in c.items()} for c in (unit[:2] + e2e[:2])],
+        "long_paddings": {"unit": sum(1 for c in unit if len(c.get("pad1") or "") > 8000 or len(c.get("pad2") or "") > 8000),
+                          "e2e": sum(1 for c in e2e if c.get("reserve_extra"))},
     })
 
 
 def search(ctx):
     common.build_harness()
     cases = [gen_unit(ctx.rng, 0) for _ in range(3000)] + [gen_e2e(ctx.rng, 0) for _ in range(400)]
+    cases += [gen_unit_long(ctx.rng, 0, w, n, wh) for w in (1, 2) for n in LONG for wh in ("first", "mid", "last", "p4095", "p4096", "late", "late")]
+    cases += [gen_e2e(ctx.rng, 0, longpad=True) for _ in range(40)]
     for i, c in enumerate(cases):
         c["id"] = i
     eval_unit(ctx, [c for c in cases if c["op"] == "unit"], with_model=False)
